@@ -35,7 +35,8 @@ TRUSTED = [
 
 
 def _worker(args):
-    seed, n, profiles, c_exe, lean_exe, exclude, prop = args
+    seed, n, profiles, c_exe, lean_exe, exclude, prop, known_match = args
+    KNOWN_MATCH[:] = known_match
     rng = random.Random(seed)
     stats, bad, mon = [], [], []
     for _ in range(n):
@@ -52,15 +53,25 @@ def _worker(args):
                                     "model": b[d] if d is not None and d < len(b) else "<none> rc=%d" % rc2,
                                     "impl_rc": rc1, "impl_err": e1[-2500:], "impl_out": a}))
         v = simmon.analyze(lines, a)
-        if v.get(prop) and len(mon) < 3:
-            mon.append((lines, v[prop]))
+        st["known_finding_hits"] = len(v.get(prop, [])) - len(_unknown(v.get(prop, [])))
+        if _unknown(v.get(prop, [])) and len(mon) < 3:
+            mon.append((lines, _unknown(v[prop])))
     return stats, bad, mon
 
 
-def monitor_flags(c_exe, lean_exe, prop, lines):
+KNOWN_MATCH = []     # regexes of monitor messages that belong to listed known findings (set by run())
+
+
+def _unknown(msgs):
+    import re
+    return [m for m in msgs if not any(re.search(rx, m) for rx in KNOWN_MATCH)]
+
+
+def monitor_flags(c_exe, lean_exe, prop, lines, keep_known=False):
     (rc, out, err), _ = simcorr.run_pair(c_exe, lean_exe, lines)
     v = simmon.analyze(lines, out)
-    return v.get(prop, []), rc, err
+    msgs = v.get(prop, [])
+    return (msgs if keep_known else _unknown(msgs)), rc, err
 
 
 def run(chk, profiles, total_quick=1600, total_thorough=60000, variant="hook", extra_targets=()):
@@ -90,11 +101,12 @@ def run(chk, profiles, total_quick=1600, total_thorough=60000, variant="hook", e
         return
     lean_exe = vlib.lean_exe("simmain")
     exclude = frozenset(x for k in chk.known for x in k.get("exclude", []))
+    KNOWN_MATCH[:] = [k["match"] for k in chk.known if k.get("match")]
     # ---- known findings: reproduce from their corpus scenario ----------------
     for k in chk.known:
         f = os.path.join(vlib.VERIF, k["corpus"])
         lines = [l.strip() for l in open(f) if l.strip() and not l.startswith("#")]
-        msgs, rc, err = monitor_flags(c_exe, lean_exe, prop, lines)
+        msgs, rc, err = monitor_flags(c_exe, lean_exe, prop, lines, keep_known=True)
         if msgs or rc != 0:
             chk.known_finding("%s: %s" % (k["id"], (msgs or ["implementation aborts"])[0]))
         else:
@@ -115,7 +127,7 @@ def run(chk, profiles, total_quick=1600, total_thorough=60000, variant="hook", e
     # ---- generated --------------------------------------------------------
     total = total_quick if quick else total_thorough
     per = max(1, total // vlib.NPROC)
-    jobs = [(chk.seed * 104729 + w, per, profiles, c_exe, lean_exe, exclude, prop) for w in range(vlib.NPROC)]
+    jobs = [(chk.seed * 104729 + w, per, profiles, c_exe, lean_exe, exclude, prop, list(KNOWN_MATCH)) for w in range(vlib.NPROC)]
     with multiprocessing.Pool(vlib.NPROC) as pool:
         res = pool.map(_worker, jobs)
     stats = [s for r in res for s in r[0]]
@@ -135,7 +147,8 @@ def run(chk, profiles, total_quick=1600, total_thorough=60000, variant="hook", e
         "scenario_lines": sum(s["lines"] for s in stats),
         "non_success_returns": sum(s["nonsuccess"] for s in stats),
         "scenarios_ending_with_blocked_processes": sum(1 for s in stats if s["blocked_end"] > 0),
-        "corpus": ncorp, "excluded_triggers": sorted(exclude)}
+        "corpus": ncorp, "excluded_triggers": sorted(exclude),
+        "scenarios_matching_a_listed_known_finding": sum(1 for s in stats if s.get("known_finding_hits"))}
     if stats:
         chk.cov["samples"] = [{k: v for k, v in stats[0].items()}]
     # ---- verdicts ---------------------------------------------------------
